@@ -102,19 +102,30 @@ def run(run):
                                       dict(line_bytes=len(line) + sh, path=name, query_head=line[:300],
                                            first_difference=next(((a, b) for a, b in zip(lx.get("tokens", []), want_tokens) if a != b), None)))
         # the excluded point: a string literal that spans lines (as in the shipped BlowfishUsage.cql)
-        ml = '/**\n * @id java/ml\n */\nFROM method_declaration AS md\nSELECT md.getName(), "first line\n    second  line"\n'
-        for eol in ("\n", "\r\n"):
-            t = ml.replace("\n", eol)
-            p = os.path.join(tmp, "ml.cql")
-            open(p, "wb").write(t.encode())
-            a = h.call(op="rule", text=t)["rule"]["query"]
-            b = h.call(op="extract", path=p)["query"]
-            la, lb = h.call(op="lex", q=a)["tokens"], h.call(op="lex", q=b)["tokens"]
-            want = h.call(op="lex", q=t[t.index("FROM"):])["tokens"]
-            if la != want or lb != want or la != lb:
-                run.violation("C18:newline-in-string-literal", "a string literal that spans lines is changed by the readers (line break -> blank%s)" %
-                              ("; the two readers disagree on the carriage return" if la != lb else ""),
-                              dict(rule_file=t, ci=a, file_reader=b))
+        mls = ['/**\n * @id java/ml\n */\nFROM method_declaration AS md\nSELECT md.getName(), "first line\n    second  line"\n',
+               '/**\n * @id java/ml2\n */\nFROM method_declaration AS md\nSELECT md.getName(), "first line\n\n    third  line"\n',
+               '/**\n * @id java/ml3\n */\nFROM method_declaration AS md\nWHERE md.getName() != "a\n   \t \nb"\nSELECT md.getName(), "x\n\n\ny"\n']
+        for ml in mls:
+            for eol in ("\n", "\r\n"):
+                t = ml.replace("\n", eol)
+                p = os.path.join(tmp, "ml.cql")
+                open(p, "wb").write(t.encode())
+                a = h.call(op="rule", text=t)["rule"]["query"]
+                b = h.call(op="extract", path=p)["query"]
+                la, lb = h.call(op="lex", q=a)["tokens"], h.call(op="lex", q=b)["tokens"]
+                want = h.call(op="lex", q=t[t.index("FROM"):])["tokens"]
+                run.count(("multi-line-literal", ml, eol))
+                stats["multi_line_literal_files"] += 1
+                # the recorded finding is that a line break inside a literal becomes a blank (and that ci keeps the carriage
+                # return of a CR LF); apart from that the two readers read the same thing, empty lines included
+                nocr = lambda toks: [[k, x.replace("\r", "")] for k, x in toks]
+                if nocr(la) != nocr(lb):
+                    run.violation("C18:readers-disagree-on-literal", "a string literal that spans lines (one of them empty or blank) is read differently by `ci` and by the file reader, apart from the carriage return",
+                                  dict(rule_file=t, ci=a, file_reader=b))
+                elif la != want or lb != want or la != lb:
+                    run.violation("C18:newline-in-string-literal", "a string literal that spans lines is changed by the readers (line break -> blank%s)" %
+                                  ("; the two readers disagree on the carriage return" if la != lb else ""),
+                                  dict(rule_file=t, ci=a, file_reader=b))
         # end to end on a few files: ci / scan / --query-file vs --query
         together = []       # (text, metadata, query, results of `query --query`) of every file, for one ruleset of them all
         heads = []
